@@ -30,6 +30,7 @@ class Rec(span_token.SpanToken):
     prescribed = ()
 
     def __init__(self, match):
+        span_token.SpanToken.__init__(self, match)      # the documented default: leaf tokens get .content = their parse group
         self.m = (match.start(), match.end(), match.start(self.parse_group), match.end(self.parse_group))
 
     @classmethod
@@ -103,6 +104,10 @@ def tiling_problem(tokens, text, lo, hi, parent=None):
                 p = tiling_problem(list(t.children), text, ps, pe, t)
                 if p:
                     return p
+            elif not type(t).parse_inner:
+                content = getattr(t, 'content', None)
+                if content != text[ps:pe]:
+                    return 'leaf token %s carries content %r, its parse group is %r' % (name, content, text[ps:pe])
             pos = e
         else:
             return 'unexpected token %s' % name
